@@ -219,3 +219,43 @@ func VX_C20_GetMessagePanic(args []int) {
 	vxSameMessage(r, f, "message taken after a failed GetMessage vs fresh")
 	vxCover("c20.getmessage-panic")
 }
+
+func init() { vxRegister("VX_C20_ArgsAfterDelete", VX_C20_ArgsAfterDelete) }
+
+// VX_C20_ArgsAfterDelete: the previous user of a metadata container added
+// pairs and deleted one of them (which one: solver's choice; also a key that
+// occurs twice); the container is recycled. The next user adds its own pairs
+// (values symbolic): the container then reads and encodes exactly like a fresh
+// one given the same pairs. args: nPrev (pairs before the delete), nNext, nStr
+func VX_C20_ArgsAfterDelete(args []int) {
+	vxPoolMode(1)
+	nPrev, nNext, nStr := args[0], args[1], args[2]
+	a := utils.AcquireArgs()
+	for k := 0; k < nPrev; k++ {
+		a.Add("key"+string(rune('0'+k)), "value"+string(rune('0'+k)))
+	}
+	del := vxChoose("del", nPrev+1)
+	if del == nPrev {
+		a.Add("key0", "again") // a key that occurs twice, both deleted
+		del = 0
+	}
+	a.Del("key" + string(rune('0'+del)))
+	vxAssert(!a.Has("key"+string(rune('0'+del))), "a deleted key is gone")
+	utils.ReleaseArgs(a)
+	r := utils.AcquireArgs()
+	vxAssert(r == a, "pool hands the recycled Args out again")
+	f := new(utils.Args)
+	vxAssert(r.Len() == 0, "recycled Args empty")
+	for k := 0; k < nNext; k++ {
+		key, val := "k"+string(rune('a'+k)), vxString("v", nStr)
+		r.Add(key, val)
+		f.Add(key, val)
+	}
+	vxAssert(r.Len() == f.Len(), "same number of pairs as a fresh container given the same pairs")
+	vxAssert(bytes.Equal(r.QueryString(), f.QueryString()), "a recycled container (whose previous user deleted a pair) encodes like a fresh one")
+	for k := 0; k < nNext; k++ {
+		key := "k" + string(rune('a'+k))
+		vxAssert(bytes.Equal(r.Peek(key), f.Peek(key)), "and reads like a fresh one")
+	}
+	vxCover("c20.args-after-delete")
+}
